@@ -60,7 +60,10 @@ def factors_identity_kept(lyr):
 
 INV_STEP = 'old(self._steps) % old(self.inv_update_steps) == 0'
 FAC_STEP = '(not old(self._update_factors_in_hook) and old(self._steps) % old(self.factor_update_steps) == 0)'
+TDC_OK = 'tdc_inv(self._tdc) and isinstance(self._tdc._bucket_cap_mb, (int, float))'
 SELF_OK = [('assignment_present', 'self._assignment is not None and self._tdc is not None'),
+           ('communicator_invariant', TDC_OK),
+           ('layers_share_the_communicator', 'all(self._layers[m][1].tdc is self._tdc for m in self._layers)'),
            ('hyperparameters_are_numbers',
             f'{NUMBER("self.damping")} and {NUMBER("self.factor_decay")} and {NUMBER("self.lr")} and '
             f'(self.kl_clip is None or ({NUMBER("self.kl_clip")} and self.kl_clip > 0)) and '
@@ -75,7 +78,7 @@ for variant, cls in (('inverse', 'KFACInverseLayer'), ('eigen', 'KFACEigenLayer'
               'and same(self._damping, old(self._damping)) and same(self._factor_decay, old(self._factor_decay)) '
               'and same(self._kl_clip, old(self._kl_clip)) and same(self._lr, old(self._lr)) '
               'and same(self._factor_update_steps, old(self._factor_update_steps)) and same(self._inv_update_steps, old(self._inv_update_steps))')
-    INV = MUTS + [('own_state_stable', STABLE)]
+    INV = MUTS + [('own_state_stable', STABLE), ('communicator_invariant', 'tdc_inv(self._tdc)')]
     INV3 = [(lbl, over_layers(body) if lbl != 'preconditioned_gradient_shape' else
              over_layers('implies(l._grad is not None, len(awaited(l._grad).shape) == 2)'))
             for lbl, body in MUT_COMMON + MUT_VARIANT[variant]] + [('own_state_stable', STABLE)]
@@ -106,6 +109,7 @@ for variant, cls in (('inverse', 'KFACInverseLayer'), ('eigen', 'KFACEigenLayer'
             ('factors_kept_off_schedule', f'implies(not {FAC_STEP}, all(' + factors_identity_kept(L_) + ' for m in self._layers))'),
             # every bucketed reduction started in the hooks or in this step has been issued (C03: no rank waits forever)
             ('no_reduction_left_pending', 'nothing_pending(self._tdc)'),
+            ('communicator_invariant', 'tdc_inv(self._tdc)'),
         ],
         loops={f'iter:reversed(list(self._layers.values()))#{i}': dict(index='i', invariants=(INV if i < 3 else INV3) + extra) for i, extra in enumerate([
             [],
@@ -158,6 +162,7 @@ for variant, cls in (('inverse', 'KFACInverseLayer'), ('eigen', 'KFACEigenLayer'
                       ('helper_factors_are_square', 'True'),
                       ('scaler', f'{HOOK_LAYER}.grad_scaler is None or (callable({HOOK_LAYER}.grad_scaler) and '
                                  f'isinstance({HOOK_LAYER}.grad_scaler(), (int, float)))'),
+                      ('communicator_invariant', f'tdc_inv({HOOK_LAYER}.tdc) and isinstance({HOOK_LAYER}.tdc._bucket_cap_mb, (int, float))'),
                       ('settings', f'self._assignment is not None and self._accumulation_steps > 0 and {NUMBER("self.factor_decay")} and '
                                    'isinstance(self.factor_update_steps, int) and self.factor_update_steps > 0')],
             may_raise=['RuntimeError', 'NonSquareTensorError'],
@@ -165,6 +170,7 @@ for variant, cls in (('inverse', 'KFACInverseLayer'), ('eigen', 'KFACEigenLayer'
                 ('eval_mode_is_a_no_op', f'implies(not module.training, {UNCHANGED})'),
                 ('only_on_factor_update_steps', f'implies(self._steps % self.factor_update_steps != 0, {UNCHANGED})'),
                 ('step_counter_untouched', 'self._steps == old(self._steps)'),
+                ('communicator_invariant', f'tdc_inv({HOOK_LAYER}.tdc)'),
             ] + ([('counts_the_forward_pass', f'implies(module.training and self._steps % self.factor_update_steps == 0, '
                                               f'self._mini_steps[{HOOK_NAME}] == (old(self._mini_steps)[{HOOK_NAME}] if {HOOK_NAME} in old(self._mini_steps) else 0) + 1)')]
                  if hook == '_save_input' else [('mini_step_counter_untouched', 'True')]),
